@@ -22,7 +22,7 @@ ASSUMPTIONS = [
     "x86-64 ELF only",
 ]
 BOUNDS = {"quick": {"set_size": 2, "chain_depth": 2}, "thorough": {"set_size": 3, "chain_depth": 3}}
-CAP_S = {"quick": 150, "thorough": 2400}
+CAP_S = {"quick": 400, "thorough": 2400}
 
 P_ORD = [["p", 0]]
 P_CALLG = [["p", 0], ["call", "A"]]
